@@ -100,6 +100,8 @@ func (i *Interpreter) restart() error {
 	i.process.Cached = false
 	// ...and so does the state which X-Cache and fastly_info.state report: no lookup has been done yet in this pass
 	i.ctx.State = "NONE"
+	// ...and the object which was found by the lookup before the restart is not the one which is delivered
+	i.ctx.CacheHitItem = nil
 	i.ctx.BackendRequest = nil
 	i.ctx.BackendResponse = nil
 	i.ctx.Object = nil
